@@ -2,8 +2,8 @@ package main
 
 import (
 	"fmt"
-	"os"
 	"go/types"
+	"os"
 	"sort"
 	"strings"
 
@@ -559,8 +559,40 @@ func (ex *Exec) bindResults(env *Env, fc *FuncContract, sig *types.Signature, re
 
 // ---- verifying one function ------------------------------------------------------------------------
 
+// smallFunc: up to this many explored edges a function is verified path by path; join merging
+// (memo.go) is only an answer to path explosion and makes quantified goals harder for the solvers.
+const smallFunc = 600
+
+// VerifyFunc runs the symbolic execution of one function: without join merging when the function
+// is small, with it otherwise.
+func VerifyFunc(ctx *Ctx, fn *ssa.Function, fc *FuncContract, safety, canaries bool) (ex *Exec) {
+	run := func(merge bool) *Exec {
+		ex := NewExec(ctx, fn, fc, safety)
+		ex.canaries = canaries
+		if !merge {
+			ex.noMemo = true
+			ex.pathCap = smallFunc
+		}
+		func() {
+			defer func() {
+				if r := recover(); r != nil {
+					ex.errs = append(ex.errs, fmt.Sprintf("engine failure: %v", r))
+				}
+			}()
+			ex.Verify()
+		}()
+		return ex
+	}
+	if os.Getenv("GCV_MEMO") == "" {
+		if ex = run(false); !ex.capHit {
+			return ex
+		}
+	}
+	return run(true)
+}
+
 func NewExec(ctx *Ctx, fn *ssa.Function, fc *FuncContract, safety bool) *Exec {
-	return &Exec{noMemo: os.Getenv("GCV_NOMEMO") != "",ctx: ctx, D: NewDecls(), fn: fn, contract: fc, safety: safety, externs: map[string]bool{}, assumed: map[string]bool{},
+	return &Exec{noMemo: os.Getenv("GCV_NOMEMO") != "", ctx: ctx, D: NewDecls(), fn: fn, contract: fc, safety: safety, externs: map[string]bool{}, assumed: map[string]bool{},
 		inlined: map[string]bool{}, subKinds: map[string]int{}, litSeen: map[string]Term{}}
 }
 
